@@ -200,8 +200,9 @@ impl DailyLogsUpdate {
                     }
                     previous_hash = daily_hash;
                 } else {
-                    previous_hash = None;
-                    previous_history = None;
+                    //first row of a (room, entity): the chain continues from its stored hashes
+                    previous_hash = daily_hash;
+                    previous_history = history_hash;
                 }
                 previous_room = room;
                 previous_entity = entity;
